@@ -43,7 +43,7 @@ const (
 	// ("x:[S]y","z") and ("x","y:[S]z") get one key and are merged
 	// -> signature key_delimiter_collision. Avoided by never putting ':'
 	// directly before a marker "[S] [I] [F] [D] [B] [T] [N]" inside one cell.
-	avoidKnownDelimiterCollision = true
+	avoidKnownDelimiterCollision = false
 	// float zeros of different sign ('0.0' and '-0.0', 0.0 and -0.0) are equal
 	// values but get the keys "[F]0" and "[F]-0" -> signature
 	// negative_zero_split. Avoided by not generating negative float zeros.
@@ -79,7 +79,7 @@ func hasDelimiter(v val.Val) bool {
 	if v.K != "S" {
 		return false
 	}
-	if strings.Contains(v.S, ":") {
+	if strings.ContainsAny(v.S, ":\\") {
 		return true
 	}
 	u := strings.ToUpper(v.S)
@@ -168,6 +168,10 @@ var clusters = []cluster{
 	{"a_open", "delim", sv("a:[S", "A:[s")},
 	{"close", "delim", sv("S]a", "]")},
 	{"a_sp_m", "delim", sv("a: [S]b", "A: [S]B")},
+	{"bslash", "delim", sv(`\`, `\ `)},
+	{"a_bslash", "delim", sv(`a\`, `A\`)},
+	{"bslash_colon", "delim", sv(`a\:b`, `A\:B`)},
+	{"bslash_colon_end", "delim", sv(`a\:`)},
 }
 
 func clusterIdx(class string) []int {
@@ -320,7 +324,7 @@ func keyPart(v val.Val, strict bool) (string, bool) {
 	return "", false
 }
 
-var atomStrings = []string{"x", "y", "z", "Q", "ab", "k9", "w_", "é"}
+var atomStrings = []string{"x", "y", "z", "Q", "ab", "k9", "w_", "é", `b\`, `\`}
 
 func genAtom(t *rapid.T, csv bool, mustBeText bool) val.Val {
 	if mustBeText {
